@@ -667,6 +667,7 @@ DERIVE = {
     "expr/two": ("a + b", ["a", "b"], lambda d: d["a"] + d["b"]),
     "expr/col=str": ("b * 2", "b", lambda d: d["b"] * 2),
 }
+LONG = {"a": "length", "b": "b_2", "c": "c3"}
 WNC_ROWS = {"int,str,mixed": [[0, "x", 1], [1, "", "y"], [2, "x", 1.5]],
             "int,int,float": [[0, 5, 0.5], [1, 6, 1.5], [2, 5, -1.0]],
             "mixed,str,bool": [[1, "x", True], ["q", "y", False], [0.5, "", True]],
@@ -722,6 +723,13 @@ def gen_reshape(tier, seed):
                 tab = {"h": ["a", "b", "c"], "r": list(rows)}
                 for d in DERIVE:
                     yield ["with_new_column", d, [tab]]
+    # the same derivations on columns with longer names (a name given as a bare str must not be read as a sequence of letters)
+    for kind, corpus in WNC_ROWS.items():
+        for n in (1, 2, 3):
+            for rows in list(itertools.product(corpus, repeat=n))[::(1 if thorough else 3)]:
+                tab = {"h": [LONG[x] for x in ("a", "b", "c")], "r": list(rows)}
+                for d in DERIVE:
+                    yield ["with_new_column_long", d, [tab]]
     rnd = random.Random(seed * 7919 + 23)
     for _ in range(1500 if thorough else 100):
         n = rnd.randint(4, 12)
@@ -806,16 +814,24 @@ def contract_reshape(case):
         if index and any(r[header.index(index)] is None for r in rows):
             pat = "index-column-has-missing-value"
         nontrivial = len(rows) >= 1
-    elif op == "with_new_column":
+    elif op in ("with_new_column", "with_new_column_long"):
         (tab,) = tabs
         (t,) = tables
         cb, cols, fn = DERIVE[arg]
         header, rows = model(tab)
+        short_names = list(header)
+        if op.endswith("_long"):
+            import re as _re
+            back = {v: k for k, v in LONG.items()}
+            short_names = [back[h] for h in header]
+            cols = LONG[cols] if isinstance(cols, str) else None if cols is None else [LONG[c] for c in cols]
+            if isinstance(cb, str):
+                cb = _re.sub(r"\b([abc])\b", lambda m: LONG[m.group(1)], cb)
         try:
-            new = [fn(dict(zip(header, r))) for r in rows]
+            new = [fn(dict(zip(short_names, r))) for r in rows]
         except TypeError:
             return ("skip",)
-        site = f"with_new_column/{arg.split('/')[0]}"
+        site = f"with_new_column/{arg.split('/')[0]}" + ("/long-names" if op.endswith("_long") else "")
         exp = header + ["z"], [tuple(r) + (v,) for r, v in zip(rows, new)]
         call = lambda: t.with_new_column("z", cb, columns=cols)
         kinds = {("str" if isinstance(v, str) else "other") for v in new}
